@@ -25,6 +25,7 @@ def main():
     ap.add_argument("--tier", default="quick")
     ap.add_argument("--needs", default="")
     ap.add_argument("--skip-confirm", action="store_true")
+    ap.add_argument("--confirm-only", action="store_true")
     a = ap.parse_args()
     wt = a.worktree
     feat = ("--features " + a.features) if a.features else ""
@@ -57,12 +58,15 @@ def main():
         print("confirm: clean demo ok=%s suite ok=%s builds=%s demo fails with change=%s" % (clean_ok, suite_ok, builds, demo_fails))
     # run the checks against /repo with the patch applied
     checks = [c for c in (a.checks or a.prop).split(",") if c]
+    if a.confirm_only:
+        checks = []
     rc, out = sh("git -C /repo status --porcelain")
-    if out.strip():
+    if out.strip() and checks:
         print("/repo is not clean, refusing:", out); sys.exit(2)
-    rc, out = sh("git -C /repo apply %s" % a.patch)
-    if rc != 0:
-        print("patch does not apply to /repo:", out); sys.exit(2)
+    if checks:
+        rc, out = sh("git -C /repo apply %s" % a.patch)
+        if rc != 0:
+            print("patch does not apply to /repo:", out); sys.exit(2)
     results = {}
     try:
         for c in checks:
@@ -74,11 +78,12 @@ def main():
             print(c, a.tier, "exit", rc, (first[0][:160] if first else ""))
             meta["ran"].append("./check %s %s -> exit %d" % (c, a.tier, rc))
     finally:
-        sh("git -C /repo checkout -- . && git -C /repo clean -fdq src tests")
-        # replays found against a seeded change must not stay in the replay tier
-        sh("rm -rf %s/replays/found" % VERIF)
+        if checks:
+            sh("git -C /repo checkout -- . && git -C /repo clean -fdq src tests")
+            # replays found against a seeded change must not stay in the replay tier
+            sh("rm -rf %s/replays/found" % VERIF)
     rc, out = sh("git -C /repo status --porcelain")
-    assert not out.strip(), "/repo not restored: " + out
+    assert a.confirm_only or not out.strip(), "/repo not restored: " + out
     meta["checks"] = results
     meta["caught_by"] = [c for c, r in results.items() if r["exit"] == 1]
     d = os.path.join(VERIF, "seeded", a.id)
